@@ -96,4 +96,28 @@ def from_annotated(text, lang='c'):
         plain.append(_strip_vst(_strip_line(line, n, probes), n, probes))
     inst[0] = '#include "trace.h"'
     itext = '\n'.join(inst).replace('/*FINISH*/', 'vp_finish();')
-    return Program('\n'.join(plain), itext, probes, [], [], {}, lang)
+    prog = Program('\n'.join(plain), itext, probes, [], [], {}, lang)
+    prog.parents = _parents(lines)
+    return prog
+
+
+def _parents(lines):
+    """pid -> pid of the smallest enclosing VPT wrapper on the same line"""
+    parents = {}
+    for line in lines:
+        spans = []
+        for m in _VPT.finditer(line):
+            depth = 1
+            j = m.end()
+            while j < len(line) and depth:
+                if line[j] in '([':
+                    depth += 1
+                elif line[j] in ')]':
+                    depth -= 1
+                j += 1
+            spans.append((m.start(), j, int(m.group(1))))
+        for a, b, pid in spans:
+            enc = [(b2 - a2, p2) for a2, b2, p2 in spans if a2 < a and b2 >= b]
+            if enc:
+                parents[pid] = min(enc)[1]
+    return parents
